@@ -149,6 +149,59 @@ def coq_bad_indices(tag, imports, defs, ctype, check, cases, shard=400, timeout=
     return bad
 
 
+def coq_bad_matrix(tag, imports, defs, ctype, checks, cases, shard_chars=400000, timeout=900):
+    """Like coq_bad_indices for several predicates at once: `checks` maps a name to a Gallina
+    predicate of type ctype -> bool; every case is parsed once per shard and all predicates are
+    evaluated in one coqc run.  Shards are balanced by term size.  Returns {name: [bad indices]}."""
+    os.makedirs(CORR, exist_ok=True)
+    names = list(checks)
+    shards, cur, size = [], [], 0
+    for i, c in enumerate(cases):
+        if cur and size + len(c) > shard_chars:
+            shards.append(cur)
+            cur, size = [], 0
+        cur.append(i)
+        size += len(c)
+    if cur or not shards:
+        shards.append(cur)
+    paths = []
+    for k, idxs in enumerate(shards):
+        path = os.path.join(CORR, f"cases_{tag}_{os.getpid()}_m{k}.v")
+        body = [imports, "From Coq Require Import NArith ZArith List Bool.", "Import ListNotations.", defs,
+                f"Definition the_cases : list ({ctype}) := [", ";\n".join(cases[i] for i in idxs), "].",
+                """Fixpoint bad_idx {A} (f : A -> bool) (i : nat) (l : list A) : list nat :=
+  match l with [] => [] | x :: r => if f x then bad_idx f (S i) r else i :: bad_idx f (S i) r end."""]
+        for j, nm in enumerate(names):
+            body.append(f"Definition the_check_{j} : ({ctype}) -> bool := {checks[nm]}.")
+        body.append("Eval vm_compute in (" + ", ".join(f"bad_idx the_check_{j} 0 the_cases" for j in range(len(names))) + ", tt).")
+        with open(path, "w") as f:
+            f.write("\n".join(body) + "\n")
+        paths.append(path)
+    with cf.ThreadPoolExecutor(max_workers=16) as ex:
+        results = list(ex.map(lambda p: _coqc(p, timeout), paths))
+    out = {nm: [] for nm in names}
+    for k, (rc, o, err) in enumerate(results):
+        if rc != 0:
+            raise BuildError(os.path.relpath(paths[k], COQ), o + err)
+        lists = re.findall(r"\[([^\]]*)\]", o[o.index("="):] if "=" in o else o)
+        if len(lists) < len(names):
+            raise BuildError(os.path.relpath(paths[k], COQ), "unparsable output: " + o[-500:])
+        for nm, l in zip(names, lists):
+            out[nm] += [shards[k][int(x)] for x in re.findall(r"\d+", l)]
+    for p in paths:
+        base = p[:-2]
+        for ext in (".v", ".vo", ".vok", ".vos", ".glob"):
+            try:
+                os.remove(base + ext)
+            except FileNotFoundError:
+                pass
+        try:
+            os.remove(os.path.join(os.path.dirname(p), "." + os.path.basename(base) + ".aux"))
+        except FileNotFoundError:
+            pass
+    return out
+
+
 def coq_eval(tag, imports, defs, term, timeout=600):
     """Evaluate one closed term and return Coq's printed result (text after '=')."""
     os.makedirs(CORR, exist_ok=True)
